@@ -219,6 +219,11 @@ BUILTIN_FIELDS = {
 KIND_SORT = {'ref': Ref, 'bool': B, 'set': Ref, 'list': Ref, 'int': I, 'real': R, 'str': Str}
 
 GHOST_FIELDS = {}   # name -> sort ; registered by contracts (spec.py)
+# template.format(n) with exactly one integer argument: a deterministic function of (template, n)
+FMT1 = z3.Function('FMT1', Str, I, Str)
+# field -> (ghost field, fn(state, object, stored value V)): ghost update performed mechanically at every
+# store of that attribute (e.g. $idnum := the integer formatted into _sched_id)
+STORE_GHOST = {}
 
 
 def register_ghost(name, sort):
